@@ -320,21 +320,44 @@ deriving DecidableEq, Repr
 def init (m : Meta) (v2 : Bool) (t0 : Nat) : State :=
   { info := m, v2 := v2, cache := [], lastSend := t0, reqs := [] }
 
-/-- `_send_data_and_empty_cache` (persistence.py:503-506) **as repaired**:
-`success, _ = self._send_data(self._cache); if success: self._cache = {}` -/
-def sendAndEmpty (s : State) (script : List Attempt) : State :=
+/-- several `persist_data_point` calls in a row -/
+def addAll (c : Cache) (xs : List (Run × DP)) : Cache := xs.foldl (fun c x => cacheAdd c x.1 x.2) c
+
+/-- after a failed request: the data points that were not sent go back in front of those
+recorded meanwhile (`for run_id, dps in self._cache.items(): cache.setdefault(run_id, []).extend(dps)`) -/
+def mergeBack (unsent newer : Cache) : Cache := addAll unsent (items newer)
+
+/-- `_send_data_and_empty_cache` **as repaired (twice)**. `during` are the data points
+that other worker threads hand over while the request is in flight (between "payload
+built" and "cache emptied"; the parallel scheduler). The cache is swapped out under the
+lock, the request is made from the private copy, and on failure the copy is merged back:
+    with self._lock: cache = self._cache; self._cache = {}
+    success, _ = self._send_data(cache)
+    if not success: with self._lock: <merge back> -/
+def sendAndEmpty (s : State) (script : List Attempt) (during : List (Run × DP)) : State :=
   match s.cache with
-  | [] => s
+  | [] => { s with cache := addAll [] during }
   | _ :: _ =>
       let res := sendWithRetries script
       { s with reqs := s.reqs ++ [⟨⟨s.info, s.v2, s.cache⟩, res⟩],
-               cache := if res.success then [] else s.cache }
+               cache := if res.success then addAll [] during else mergeBack s.cache (addAll [] during) }
 
-/-- the same function on the pinned tree: `if self._send_data(self._cache):` tests
-the pair `(success, response)`, which is always truthy -/
-def sendAndEmptyPinned (s : State) (script : List Attempt) : State :=
+/-- the tree after the first repair only (`success, _ = …; if success: self._cache = {}`,
+no lock in `send_data`): the payload is built from the shared dict, other threads keep
+appending to it, and a successful request replaces it by `{}` -/
+def sendAndEmptyUnlocked (s : State) (script : List Attempt) (during : List (Run × DP)) : State :=
   match s.cache with
-  | [] => s
+  | [] => { s with cache := addAll [] during }
+  | _ :: _ =>
+      let res := sendWithRetries script
+      { s with reqs := s.reqs ++ [⟨⟨s.info, s.v2, s.cache⟩, res⟩],
+               cache := if res.success then [] else addAll s.cache during }
+
+/-- the pinned tree: `if self._send_data(self._cache):` tests the pair
+`(success, response)`, which is always truthy -/
+def sendAndEmptyPinned (s : State) (script : List Attempt) (during : List (Run × DP)) : State :=
+  match s.cache with
+  | [] => { s with cache := addAll [] during }
   | _ :: _ =>
       let res := sendWithRetries script
       { s with reqs := s.reqs ++ [⟨⟨s.info, s.v2, s.cache⟩, res⟩], cache := [] }
@@ -344,11 +367,12 @@ def sumWaits (r : SendResult) : Nat := r.waits.foldl (· + ·) 0
 inductive Event where
   /-- `persist_data_point` / `loaded_data_point` -/
   | persist (r : Run) (d : DP)
-  /-- `send_data()` at clock `now` (from `run_completed` and after `load_data`):
-  only if 30 s have passed since `_last_send` -/
-  | sendData (now : Nat) (script : List Attempt)
+  /-- `send_data()` at clock `now` (from `run_completed` and after `load_data`): only if
+  30 s have passed since `_last_send`; `during`: data points other threads hand over
+  while this call is under way -/
+  | sendData (now : Nat) (script : List Attempt) (during : List (Run × DP))
   /-- `close()`: unconditional -/
-  | close (script : List Attempt)
+  | close (script : List Attempt) (during : List (Run × DP))
 deriving Repr
 
 /-- seconds slept inside the request that `sendAndEmpty` makes (none if the cache is empty) -/
@@ -357,26 +381,29 @@ def sleptIn (s : State) (script : List Attempt) : Nat :=
   | [] => 0
   | _ :: _ => sumWaits (sendWithRetries script)
 
-def stepWith (send : State → List Attempt → State) (s : State) : Event → State
+def stepWith (send : State → List Attempt → List (Run × DP) → State) (s : State) : Event → State
   | .persist r d => { s with cache := cacheAdd s.cache r d }
-  | .sendData now script =>
+  | .sendData now script during =>
       if now - s.lastSend ≥ 30 ∧ s.lastSend ≤ now then
-        let s' := send s script
+        let s' := send s script during
         { s' with lastSend := now + sleptIn s script }
-      else s
-  | .close script => send s script
+      else { s with cache := addAll s.cache during }
+  | .close script during => send s script during
 
 def step := stepWith sendAndEmpty
+def stepUnlocked := stepWith sendAndEmptyUnlocked
 def stepPinned := stepWith sendAndEmptyPinned
 
 def run (s : State) (es : List Event) : State := es.foldl step s
+def runUnlocked (s : State) (es : List Event) : State := es.foldl stepUnlocked s
 def runPinned (s : State) (es : List Event) : State := es.foldl stepPinned s
 
 /-- every data point handed to the back end, in order -/
 def persisted : List Event → List (Run × DP)
   | [] => []
   | .persist r d :: es => (r, d) :: persisted es
-  | _ :: es => persisted es
+  | .sendData _ _ during :: es => during ++ persisted es
+  | .close _ during :: es => during ++ persisted es
 
 /-- the data points contained in acknowledged requests -/
 def ackedItems (s : State) : List (Run × DP) :=
